@@ -236,7 +236,7 @@ pub fn observe(ops: &[Op], resmap: &[u8], need: Need) -> Obs {
                     (d, m) => !d.reads().contains(&m) && !d.writes().contains(&m),
                 },
                 Op::Batch(b) => {
-                    let ctrl_ok = if b.ctrl == CtrlData::OptReadA && missing == 0 {
+                    let ctrl_ok = if matches!(b.ctrl, CtrlData::OptReadA | CtrlData::DerOptReadAWriteC) && missing == 0 {
                         *opt_seen = true;
                         true
                     } else {
